@@ -219,7 +219,7 @@ def judge(rec):
 
 
 def run(tier, seed):
-    c = vlib.Check("C05", tier, seed, "other")
+    c = vlib.Check("C05", tier, seed, "proof")
     c.prove("C05.v")
     import tokharness
     tokharness.setup()
